@@ -15,7 +15,13 @@ for ID in $IDS; do
     rsync -a --exclude .git /repo/ $S/repo/
     mkdir -p $S/verif && for d in checks replay probes known_findings.json; do ln -s $V/$d $S/verif/$d; done
     if ! (cd $S/repo && git apply $P 2>$S/apply.err); then
-      echo "SKIP  $ID $(echo $P | sed "s|$V/||")  (patch does not apply: $(head -1 $S/apply.err))"; rm -rf $S; continue
+      # a seeded change whose context was moved by a later fix: commit keeps a rebased copy beside the original
+      RB=$(dirname $P)/patch.rebased.diff
+      if [ "$(basename $P)" = patch.diff ] && [ -f $RB ] && (cd $S/repo && git apply $RB 2>>$S/apply.err); then
+        P=$RB
+      else
+        echo "SKIP  $ID $(echo $P | sed "s|$V/||")  (patch does not apply: $(head -1 $S/apply.err))"; rm -rf $S; continue
+      fi
     fi
     OUT=$(VERIF_REPO=$S/repo VERIF_ROOT=$S/verif $V/bin/gocv check $ID 2>&1); RC=$?
     NV=$(echo "$OUT" | grep -c "^VIOLATION")
